@@ -12,6 +12,7 @@ from __future__ import annotations
 import signal
 
 from .. import coqterm as T
+from .C18_strings import B
 
 CHECKERS = ['Wire/ModUtf7Check']
 HEADER = ('From PV Require Import Base.Prelude Wire.Lex Wire.Strings Wire.StringsCheck '
@@ -106,7 +107,7 @@ def monitor_roundtrip(ctx, s: str) -> None:
 def section(ctx) -> None:
     from pymap.parsing.modutf7 import modutf7_encode, modutf7_decode
     from pymap.parsing.specials import Mailbox
-    from .C18_strings import impl_parse, sweep, small_strings, mutate, enc_xres, INTERESTING
+    from .C18_strings import B, impl_parse, sweep, small_strings, mutate, enc_xres, INTERESTING
     rng = ctx.rng
     quick = ctx.quick
     SH = dict(shard=600)
@@ -115,7 +116,7 @@ def section(ctx) -> None:
     # --- bytes.decode('utf-7') against the state machine of the model
     bases = [b'+AOk-', b'+2D3eAA-x', b'a+-b', b'+AOkA6Q-', b'+AAA', b'+2D0-', b'+3gA-', b'x+AOk y']
     stream = small_strings(b'+-A/,x\xe9', 4 if quick else 5) + sweep(bases, vals_, not quick) \
-        + [mutate(rng, rng.choice(bases), b'+-/,AOk26Qg=\x80 ') for _ in range(ctx.scale(500, 8000))]
+        + [mutate(rng, rng.choice(bases), b'+-/,AOk26Qg=\x80 ') for _ in range(ctx.scale(300, 8000))]
     stream = list(dict.fromkeys(stream))
     cases = []
     for buf in stream:
@@ -124,7 +125,7 @@ def section(ctx) -> None:
         except UnicodeDecodeError:
             r = ('unicode',)
         ctx.count(('utf7', buf), nontrivial=r[0] == 'ok')
-        cases.append(T.pair(T.bytes_(buf), enc_xstr(r)))
+        cases.append(T.pair(B(buf), enc_xstr(r)))
     for i in ctx.run_cases('py_utf7_decode', HEADER, 'bytes * xstr', cases, 'chk_utf7', **SH)[:5]:
         ctx.disagreement('py_utf7_decode', {'input': stream[i].hex()})
 
@@ -144,14 +145,14 @@ def section(ctx) -> None:
             ctx.failure('modutf7_decode_terminates', f'modutf7_decode({buf!r}) does not terminate',
                         {'input': buf.hex()}, {'kind': 'decode_hang'})
         ctx.count(('decode', buf), nontrivial=r[0] == 'ok')
-        cases.append(T.pair(T.bytes_(buf), enc_xstr(r)))
+        cases.append(T.pair(B(buf), enc_xstr(r)))
         for tail in (b'', b' x'):
             m = guarded(impl_parse, Mailbox, buf + tail)
             if m[0] == 'ok':
-                cm.append(T.pair(T.bytes_(buf + tail),
+                cm.append(T.pair(B(buf + tail),
                                  enc_xres(m[1], lambda o: T.codepoints(o.value))))
             else:   # an exception other than NotParseable escaped Mailbox.parse
-                cm.append(T.pair(T.bytes_(buf + tail), '(XNeed 4294967295%N)'))
+                cm.append(T.pair(B(buf + tail), '(XNeed 4294967295%N)'))
     for i in ctx.run_cases('modutf7_decode', HEADER, 'bytes * xstr', cases, 'chk_decode', **SH)[:5]:
         ctx.disagreement('modutf7_decode', {'input': stream[i].hex(),
                                             'impl': repr(guarded(modutf7_decode, stream[i]))})
@@ -167,7 +168,7 @@ def section(ctx) -> None:
                                                       0xffff, 0x10000, 0x10ffff]] \
         + [a + chr(c) + b for c in (0x9, 0xa, 0xd, 0x26, 0x2d, 0xe9, 0x1F600) for a in ('', 'x', 'é')
            for b in ('', 'y', '&', 'é')] \
-        + [gen_name(rng) for _ in range(ctx.scale(600, 12000))]
+        + [gen_name(rng) for _ in range(ctx.scale(400, 12000))]
     names = list(dict.fromkeys(names))
     cases, keep = [], []
     for s in names:
@@ -177,7 +178,7 @@ def section(ctx) -> None:
         monitor_roundtrip(ctx, s)
         keep.append(s)
         mb = Mailbox(s)
-        cases.append(T.pair(T.codepoints(s), T.bytes_(modutf7_encode(s)), T.bytes_(bytes(mb)),
+        cases.append(T.pair(T.codepoints(s), B(modutf7_encode(s)), B(bytes(mb)),
                             T.codepoints(mb.value)))
     ctx.sample({'name': keep[-1], 'encoded': modutf7_encode(keep[-1]).decode('ascii', 'replace')})
     for i in ctx.run_cases('modutf7_encode', HEADER, 'list N * bytes * bytes * list N', cases,
@@ -185,3 +186,13 @@ def section(ctx) -> None:
         ctx.disagreement('modutf7_encode', {'name': [ord(c) for c in keep[i]],
                                             'impl': modutf7_encode(keep[i]).hex()})
     ctx.extra['utf7'] = {'names': len(keep), 'decode_inputs': len(stream), 'decode_hangs': hangs}
+
+
+def replay(ctx, obj) -> bool:
+    if obj.get('clause') in ('modutf7_roundtrip', 'mailbox_report_roundtrip') and 'template' not in obj:
+        s = ''.join(chr(c) for c in obj['name'])
+        from pymap.parsing.modutf7 import modutf7_encode
+        print('name', repr(s), 'encodes to', modutf7_encode(s))
+        monitor_roundtrip(ctx, s)
+        return True
+    return False
